@@ -9,7 +9,7 @@
      objR A b s        1/2 s^T A s - b^T s
      sym_mat, pos_def  A symmetric, x^T A x > 0 for x <> 0                                              *)
 From Coq Require Import ZArith List Bool Reals Lra Lia QArith.
-From PAV Require Import Base.Res Base.Check Base.NumOps Base.Sum Model.C05 Proofs.C05.
+From PAV Require Import Base.Res Base.Check Base.NumOps Base.Sum Model.C05 Model.C05Chol Proofs.C05 Proofs.C05Chol.
 Import ListNotations.
 Local Open Scope R_scope.
 
@@ -129,6 +129,48 @@ Theorem C05_reconstruction_dict_partitions : forall ps (s : list R), length s = 
   concat (@split_by ROps ps s) = s /\ map (@length R) (@split_by ROps ps s) = ps.
 Proof. exact split_by_concat. Qed.
 
+(* ---- the Cholesky factor kept by fnnls_cholesky (Model/C05Chol.v, Proofs/C05Chol.v).  Vocabulary:
+     shaped n U     U is an upper-triangular n x n factor with positive diagonal (rows stored from the diagonal on)
+     gramR U i j    (U^T U)[i][j]
+     delete_all     np.delete(v, indexes): all positions at once
+   Contract of the solver state:  (U^T U)[i][j] = ZTZ[P_inorder[i]][P_inorder[j]].                                  ---- *)
+(* _cholupdate(U, x) is the rank-one update  U'^T U' = U^T U + x x^T  and keeps the shape *)
+Theorem C05_cholupdate_rank_one : forall U n (x : list R), shaped n U -> length x = n ->
+  shaped n (@cholupdate ROps U x) /\
+  forall i j, gramR (@cholupdate ROps U x) i j = gramR U i j + nth i x 0 * nth j x 0.
+Proof. exact cholupdate_spec. Qed.
+
+(* cholinsertlast(U, ZTZ[idmax][P_inorder]) after P_inorder = append(P_inorder, idmax) re-establishes the contract, whenever the
+   number under the square root (the Schur complement of the new parameter) is positive *)
+Theorem C05_cholinsertlast_contract : forall m U (Aij : nat -> nat -> R) (Pin : list nat) (idmax : nat),
+  shaped m U -> length Pin = m -> (forall a b, Aij a b = Aij b a) ->
+  (forall i j, (i < m)%nat -> (j < m)%nat -> gramR U i j = Aij (nth i Pin 0%nat) (nth j Pin 0%nat)) ->
+  let Pin' := Pin ++ [idmax] in
+  let x := map (Aij idmax) Pin' in
+  let y := @fsubst ROps U (firstn m x) in
+  0 < nth m x 0 - dotR y y ->
+  let U' := @cholinsertlast ROps U x in
+  shaped (S m) U' /\
+  forall i j, (i < S m)%nat -> (j < S m)%nat -> gramR U' i j = Aij (nth i Pin' 0%nat) (nth j Pin' 0%nat).
+Proof. exact cholinsertlast_contract_A. Qed.
+
+(* choldeleteindexes(U, id_delete) with P_inorder = np.delete(P_inorder, id_delete) re-establishes the contract, for ANY set of
+   positions given in ANY order (the routine sorts them, largest first; several deletions in one step included) *)
+Theorem C05_choldeleteindexes_contract : forall n U indexes (Aij : nat -> nat -> R) (Pin : list nat),
+  shaped n U -> NoDup indexes -> (forall k, In k indexes -> (k < n)%nat) -> length Pin = n ->
+  (forall i j, (i < n)%nat -> (j < n)%nat -> gramR U i j = Aij (nth i Pin 0%nat) (nth j Pin 0%nat)) ->
+  let U' := @choldeleteindexes ROps U indexes in
+  let Pin' := delete_all indexes Pin in
+  let n' := (n - length indexes)%nat in
+  shaped n' U' /\
+  forall i j, (i < n')%nat -> (j < n')%nat -> gramR U' i j = Aij (nth i Pin' 0%nat) (nth j Pin' 0%nat).
+Proof. exact choldeleteindexes_contract. Qed.
+
+(* deleting one position after the other, largest first, is np.delete(l, positions) -- the order that choldeleteindexes relies on *)
+Theorem C05_descending_deletion_is_simultaneous : forall (ks : list nat) (l : list nat), desc ks ->
+  remove_seq ks l = delete_all ks l.
+Proof. exact (@remove_seq_desc nat). Qed.
+
 (* ---- non-vacuity: a 2 x 2 SPD system whose unconstrained solution (5/3, -7/3) has a negative entry ---- *)
 Definition exA : list (list R) := [[2; 1]; [1; 2]].
 Definition exb : list R := [1; -3].
@@ -202,6 +244,43 @@ Example C05_ex_model_warm :
   @reconstruction_positive_only_x QOps FUEL [[2; 1]; [1; 2]]%Q [1; -3]%Q (1 # 1000000000000000) true = Ok ([1 # 2; 0]%Q, ExitCond).
 Proof. vm_compute. reflexivity. Qed.
 
+(* the state in which the unrepaired code computed 0/0 (defect fixed in /repo d0dd2eb; witness A = [[3,3,3],[3,8,1],[3,1,8]], b = [6,9,9]):
+   parameter 0 has just entered with d = 0 and its sub-solution is exactly 0: the step length is 0, d is unchanged, parameter 0 is deleted *)
+Example C05_ex_fix_constraint_zero_step :
+  match @fix_constraint QOps [[3; 3; 3]; [3; 8; 1]; [3; 1; 8]]%Q [6; 9; 9]%Q (1 # 1000000000000000)
+          (@mkst QOps [true; true; true] [1; 2; 0]%nat [0; 1; 1]%Q [0; 1; 1]%Q) with
+  | Ok st' => sP st' = [false; true; true] /\ sPin st' = [1; 2]%nat /\ sD st' = [0; 1; 1]%Q /\ sS st' = [0; 1; 1]%Q
+  | Raise _ => False
+  end.
+Proof. vm_compute. repeat split. Qed.
+
+(* non-vacuity of the Cholesky theorems: the factor [[2,1],[0,2]] of ZTZ[[0,1]][:,[0,1]] for ZTZ = [[4,2,2],[2,5,3],[2,3,6]] *)
+Definition exZ (a b : nat) : R :=
+  match a, b with
+  | 0%nat, 0%nat => 4 | 0%nat, 1%nat => 2 | 0%nat, 2%nat => 2 | 1%nat, 0%nat => 2 | 1%nat, 1%nat => 5 | 1%nat, 2%nat => 3
+  | 2%nat, 0%nat => 2 | 2%nat, 1%nat => 3 | 2%nat, 2%nat => 6 | _, _ => 0
+  end.
+Definition exU : list (list R) := [[2; 1]; [2]].
+Example C05_ex_shaped : shaped 2 exU.
+Proof. cbn. repeat split; lra. Qed.
+Example C05_ex_chol_contract : forall i j, (i < 2)%nat -> (j < 2)%nat -> gramR exU i j = exZ (nth i [0; 1]%nat 0%nat) (nth j [0; 1]%nat 0%nat).
+Proof.
+  intros i j Hi Hj. assert (Ei : i = 0%nat \/ i = 1%nat) by lia. assert (Ej : j = 0%nat \/ j = 1%nat) by lia.
+  destruct Ei as [-> | ->]; destruct Ej as [-> | ->]; unfold gramR, exU, exZ; cbn; lra.
+Qed.
+Example C05_ex_chol_sym : forall a b, exZ a b = exZ b a.
+Proof. intros [|[|[|a]]] [|[|[|b]]]; reflexivity. Qed.
+Example C05_ex_chol_insert_hyp :
+  let x := map (exZ 2) ([0; 1]%nat ++ [2%nat]) in
+  let y := @fsubst ROps exU (firstn 2 x) in 0 < nth 2 x 0 - dotR y y.
+Proof. unfold exZ, exU, dotR. cbn. lra. Qed.
+Example C05_ex_chol_delete_hyp : NoDup [2; 0]%nat /\ (forall k, In k [2; 0]%nat -> (k < 3)%nat) /\ shaped 3 [[2; 1; 1]; [2; 1]; [2]].
+Proof.
+  split; [repeat constructor; cbn; intuition lia|]. split; [intros k [<-|[<-|[]]]; lia|]. cbn. repeat split; lra.
+Qed.
+Example C05_ex_desc : desc [2; 0]%nat.
+Proof. cbn. repeat split; intros x H; try destruct H as [<-|[]]; try lia; try contradiction. Qed.
+
 Print Assumptions C05_solve_sound.
 Print Assumptions C05_unconstrained_solves_or_raises.
 Print Assumptions C05_kkt_on_normal_exit.
@@ -221,3 +300,7 @@ Print Assumptions C05_reconstruction_dict_partitions.
 Print Assumptions C05_positive_only_is_minimiser.
 Print Assumptions C05_warm_start_irrelevant.
 Print Assumptions C05_unique_mappings_are_matrix_vector.
+Print Assumptions C05_cholupdate_rank_one.
+Print Assumptions C05_cholinsertlast_contract.
+Print Assumptions C05_choldeleteindexes_contract.
+Print Assumptions C05_descending_deletion_is_simultaneous.
